@@ -49,6 +49,14 @@ def apply_mutant(m: dict, dst_repo: Path) -> str | None:
 
 
 def run_one(m: dict) -> dict:
+    import time
+    t0 = time.time()
+    r = _run_one(m)
+    r["secs"] = round(time.time() - t0, 1)
+    return r
+
+
+def _run_one(m: dict) -> dict:
     tmp = Path(tempfile.mkdtemp(prefix="verif-mut-"))
     try:
         dst = tmp / "repo"
@@ -122,6 +130,8 @@ if __name__ == "__main__":
     res = run(ms)
     bad = 0
     for r in res:
+        if r.get("secs", 0) > (400 if r["id"].startswith("benign") else 90):
+            print(f"SLOW {r['id']} {r['secs']}s")
         if r["status"] != "ok":
             bad += r["status"] == "MISS"
             print(r["id"], r["status"], r.get("why", ""), r.get("tail", "")[-800:])
